@@ -53,7 +53,7 @@ class ISet:
             if lo > cur:
                 out.append((cur, lo - 1))
             cur = hi + 1
-        if cur <= POS:
+        if cur != POS:  # the last interval did not reach +inf
             out.append((cur, POS))
         return ISet(out)
 
@@ -113,6 +113,13 @@ def guard_set(atom, var):
         return guard_set(atom.args[0], var).complement()
     if op in ('le', 'lt', 'ge', 'gt', 'eq', 'ne'):
         a, b = atom.args
+        bl = _bit_length_of(a, var), _bit_length_of(b, var)
+        if bl[0] and isinstance(b, int) and not isinstance(b, bool):
+            return _bit_length_set(op, b)
+        if bl[1] and isinstance(a, int) and not isinstance(a, bool):
+            return _bit_length_set({'le': 'ge', 'lt': 'gt', 'ge': 'le',
+                                    'gt': 'lt', 'eq': 'eq',
+                                    'ne': 'ne'}[op], a)
         if a is var and isinstance(b, int) and not isinstance(b, bool):
             c = b
         elif b is var and isinstance(a, int) and not isinstance(a, bool):
@@ -138,6 +145,65 @@ def guard_set(atom, var):
         s = ISet([(x, x) for x in atom.args[1]])
         return s if op == 'in' else s.complement()
     raise NotInterval(T.show(atom))
+
+
+def _bit_length_of(t, var):
+    return isinstance(t, Sym) and t.op == 'method' and \
+        t.args[0] is var and t.args[1] == 'bit_length'
+
+
+def _bit_length_set(op, k):
+    """{x : x.bit_length() <op> k};  x.bit_length() <= k  <=>  |x| < 2**k"""
+    def le(n):
+        if n < 0:
+            return ISet.empty()
+        return ISet.range(-((1 << n) - 1), (1 << n) - 1)
+    if op == 'le':
+        return le(k)
+    if op == 'lt':
+        return le(k - 1)
+    if op == 'gt':
+        return le(k).complement()
+    if op == 'ge':
+        return le(k - 1).complement()
+    if op == 'eq':
+        return le(k).inter(le(k - 1).complement())
+    return le(k).inter(le(k - 1).complement()).complement()
+
+
+def superset(atom, var):
+    """A set that contains every integer value of var for which the
+    boolean term can hold (parts that do not constrain var, or that are not
+    interval-shaped, count as 'any value')."""
+    if atom is True:
+        return ISet.all()
+    if atom is False:
+        return ISet.empty()
+    if not isinstance(atom, Sym) or \
+            not T.mentions(atom, lambda t: t is var):
+        return ISet.all()
+    if atom.op == 'and':
+        s = ISet.all()
+        for a in atom.args:
+            s = s.inter(superset(a, var))
+        return s
+    if atom.op == 'or':
+        s = ISet.empty()
+        for a in atom.args:
+            s = s.union(superset(a, var))
+        return s
+    if atom.op == 'not':
+        x = atom.args[0]
+        if isinstance(x, Sym) and x.op == 'and':
+            return superset(T.or_(*[T.not_(a) for a in x.args]), var)
+        if isinstance(x, Sym) and x.op == 'or':
+            return superset(T.and_(*[T.not_(a) for a in x.args]), var)
+        if isinstance(x, Sym) and x.op == 'not':
+            return superset(x.args[0], var)
+    try:
+        return guard_set(atom, var)
+    except NotInterval:
+        return ISet.all()
 
 
 def is_type_atom(a):
